@@ -36,7 +36,8 @@ def strategy(draw, cells):
     c["cell"] = [cls, entry]
     # permeate values far from equilibrium so that the VALID single-condition variants return (construction, not rejection)
     c["perm"] = {"mode": "temperature", "T": draw(gen.uniform(200.0, c["T"] - 40.0)), "p": None}
-    c["pp_both"] = draw(gen.loguniform(1e-4, 1e-2))
+    c["pp_both"] = draw(st.one_of(st.just(0.0), gen.loguniform(1e-4, 1e-2), gen.loguniform(1e-4, 1e-2)))  # 0 kPa IS a stated pressure
+    c["lone"] = draw(st.integers(1, 2))  # which component has the single experiment without Ea (listed first or after the other)
     c["x"] = draw(gen.uniform(0.15, 0.85))
     c["other_model_params"] = draw(gen.uniquac_params())
     c["uq_consts"] = [draw(gen.synthetic_component("S1"))["uq"], draw(gen.synthetic_component("S2"))["uq"]]
@@ -161,15 +162,20 @@ def check(case):
                 bad = call(build.DiffusionCurve, mixture=s.mix, membrane_name="M", feed_temperature=case["T"], feed_compositions=[comp])
                 _rejected(bad, "a diffusion curve with neither fluxes nor permeances")
             else:
-                e = case["membrane"]["e1"][0]
-                lone = {"name": "M", "e1": [dict(e, Ea=None)], "e2": case["membrane"]["e2"]}
-                stated = {"name": "M", "e1": [dict(e, Ea=30000.0)], "e2": case["membrane"]["e2"]}
+                k_lone, k_other = ("e1", "e2") if case.get("lone", 1) == 1 else ("e2", "e1")
+                e = case["membrane"][k_lone][0]
+                # the other component keeps its experiments, all with a stated activation energy (it must not be borrowed)
+                others = [dict(x, Ea=x["Ea"] if x["Ea"] is not None else 41000.0) for x in case["membrane"][k_other]]
+                lone = {"name": "M", k_lone: [dict(e, Ea=None)], k_other: others}
+                stated = {"name": "M", k_lone: [dict(e, Ea=30000.0)], k_other: others}
                 m_bad, m_ok = build.membrane(lone, s.mix), build.membrane(stated, s.mix)
                 t_other = e["T"] + 11.0
+                c_lone = s.mix.first_component if k_lone == "e1" else s.mix.second_component
+                classes.append("lone=%s" % k_lone)
                 if entry == "activation-energy":
-                    ok, bad = call(m_ok.calculate_activation_energy, s.mix.first_component), call(m_bad.calculate_activation_energy, s.mix.first_component)
+                    ok, bad = call(m_ok.calculate_activation_energy, c_lone), call(m_bad.calculate_activation_energy, c_lone)
                 elif entry == "permeance-elsewhere":
-                    ok, bad = call(m_ok.get_permeance, t_other, s.mix.first_component), call(m_bad.get_permeance, t_other, s.mix.first_component)
+                    ok, bad = call(m_ok.get_permeance, t_other, c_lone), call(m_bad.get_permeance, t_other, c_lone)
                 else:
                     comp = build.composition(s.x, s.basis)
                     pv_ok, pv_bad = build.Pervaporation(membrane=m_ok, mixture=s.mix), build.Pervaporation(membrane=m_bad, mixture=s.mix)
